@@ -581,7 +581,31 @@ def cases(tier):
         cs += bool_op_cases(L_, 'highp')
         cs += anyall_cases(L_, 'highp')
     cs += matrix_cases(tier)
+    cs += lowp_inversesqrt_cases()
     cs += canaries()
+    return cs
+
+
+def lowp_inversesqrt_cases():
+    """the property's accuracy clause for the one deliberate approximation: inversesqrt on lowp float vectors has relative error below 2^-8 (rules/c01_isqrt.py)"""
+    from rules import c01_isqrt as Q
+    cs = []
+    for L_ in (1, 2, 3, 4):
+        vt = G.vec(L_, 'float', 'lowp')
+        k = K('v_core_isqrt_lowp_%d' % L_, [Par('o', vt, False), Par('a', vt)], '*o = inversesqrt(*a);', CFGS['core'])
+        name = 'inversesqrt(v)<%d,float,lowp>' % L_
+
+        def judge(ctx, k=k, vt=vt, name=name):
+            err = ctx.compile_error(k)
+            if err:
+                return [R.ob(name, 'existence', R.REFUTED, 'cannot be instantiated: ' + err, kernel=k.source())]
+            it = ctx.fn(k)
+            res = []
+            for lane, t in sorted(L.out_lanes(ctx, k, vt).items()):
+                st, detail = Q.analyse(t, L.in_term('a', vt, lane))
+                res.append(R.ob('%s.o[%s]' % (name, lane), 'lowp_accuracy', st, detail, where=R.where_of(it, t) if st == R.REFUTED else None, kernel=k.source()))
+            return res
+        cs.append(R.Case(name, [k], judge))
     return cs
 
 
@@ -611,7 +635,7 @@ EXPLANATION = ('static: for every component-wise function and operator (core + e
                'to that lane: dependence sets (lane discipline), term identity / integer polynomial identity / boolean-function equivalence (identical class), '
                'ring equality (composite formulas); float-class abstract evaluation supplies witnesses for sign-of-zero/NaN differences')
 ASSUMPTIONS = ['the scalar overload (or built-in C++ operator on T) is the oracle: a defect shared by scalar and vector code is out of scope here (C11 covers definitions)',
-               'numeric error bounds of composite formulas / lowp approximations are not decided; lowp inversesqrt is excluded with the property\'s own wording as reason',
+               'numeric error bounds of composite formulas are not decided; lowp inversesqrt is excluded from the scalar-agreement rule (the property grants it an approximation) and its 2^-8 accuracy clause is decided by interval analysis of the derived lane term over [1, 4) plus the exact 4^k scaling of the bit trick (rules/c01_isqrt.py)',
                'clang 14 -O2 pipeline without fast-math preserves values']
 TRUSTED = ['clang/LLVM 14', 'tools/irtool.cc', 'laneflow term normaliser, polynomial and float-class domains']
 LEVEL = 'other'
